@@ -37,15 +37,18 @@ pub fn dir_check(sess: &Session) -> String {
         .map(|(p, _)| p.to_string_lossy().to_string())
         .collect();
     actual.sort();
+    // an iterator was released and remove_obsolete_files has not run since (it lists the directories)
+    let released_no_gc = sess.lists_at_release.map(|n| n == sess.sim.list_calls()).unwrap_or(false);
     let facts = format!(
-        "D[{}]G[{}|{}|{}|{}|{}|{}]",
+        "D[{}]G[{}|{}|{}|{}|{}|{}]R[{}]",
         actual.iter().map(|s| s.replace("db/", "")).collect::<Vec<_>>().join(";"),
         d.live_versions.iter().flatten().map(|n| n.to_string()).collect::<Vec<_>>().join(";"),
         d.tables_in_use.iter().map(|n| n.to_string()).collect::<Vec<_>>().join(";"),
         d.version_set_wal_number,
         d.prev_wal_number.map(|n| n.to_string()).unwrap_or("-".to_string()),
         d.manifest_file_number,
-        d.levels.iter().flatten().map(|f| f.0.to_string()).collect::<Vec<_>>().join(";")
+        d.levels.iter().flatten().map(|f| f.0.to_string()).collect::<Vec<_>>().join(";"),
+        released_no_gc as u8
     );
     if let Ok(mut g) = LAST_DIR_FACTS.lock() {
         g.push(facts);
